@@ -31,6 +31,7 @@ def harness(tier, seed):
     viol, samples, slow = [], [], []
     evals, distinct = 0, set()
     reps = 300 if tier == "quick" else 6000
+    n_decoys = 0
     for _ in range(reps):
         W, H = rng.randint(1, 40), rng.randint(1, 40)
         k = rng.randint(1, 5)
@@ -51,6 +52,31 @@ def harness(tier, seed):
                 w, h = h, w
             cnt[(w, h)] = cnt.get((w, h), 0) + 1
         items = [[w, h, c] for (w, h), c in cnt.items()]
+        if W >= 4 and H >= 4 and n_decoys < 60:
+            # a decoy built just before: same name, bin, number of items and total item area, but k + 1 items that are
+            # larger than half the bin in both directions (so it needs more than k bins).  Whatever the constructor
+            # remembers about earlier instances must not leak into the next one.
+            n_tot = sum(c for _w, _h, c in items)
+            area_ = sum(w * h * c for w, h, c in items)
+            bw_, bh_ = W // 2 + 1, H // 2 + 1
+            rest = area_ - (k + 1) * bw_ * bh_
+            q_, r_ = (rest // W, rest % W) if rest > 0 else (0, 0)
+            fill = ([[W, q_, 1]] if q_ > 0 else []) + ([[r_, 1, 1]] if r_ > 0 else [])
+            ones = n_tot - (k + 1) - len(fill)
+            if rest >= 0 and q_ <= H and ones >= 0:
+                # move `ones` unit squares out of the filler area
+                rest2 = rest - ones
+                if rest2 >= 0:
+                    q_, r_ = rest2 // W, rest2 % W
+                    fill = ([[W, q_, 1]] if q_ > 0 else []) + ([[r_, 1, 1]] if r_ > 0 else [])
+                    if len(fill) + ones + (k + 1) == n_tot and q_ <= H and (ones > 0 or rest2 == rest):
+                        decoy = [[bw_, bh_, k + 1]] + fill + ([[1, 1, ones]] if ones > 0 else [])
+                        try:
+                            d_ = Instance("c", W, H, decoy)
+                            if (d_.n_items, d_.total_item_area) == (n_tot, area_):
+                                n_decoys += 1
+                        except ValueError:
+                            pass
         try:
             inst = Instance("c", W, H, items)
         except ValueError:
@@ -102,7 +128,8 @@ def harness(tier, seed):
     viol = [v for v in viol if not (v[0] in seen or seen.add(v[0]))]
     return {"name": "bp_lower_bound", "evaluations": evals, "distinct_nontrivial": len(distinct),
             "rule": "instances built by guillotine-cutting k bins (bins 1..40, k <= 5, random rotations, optional waste): bound <= k, "
-                    ">= area bound, == k when waste-free; random instances: bound <= bins of decoded packings; distinct = "
+                    ">= area bound, == k when waste-free (up to 60 of them built right after a same-name decoy with equal bin, item count "
+                    f"and area that needs more bins: {n_decoys} this run); random instances: bound <= bins of decoded packings; distinct = "
                     "distinct constructed instances",
             "samples": samples + [{"no-verdict-constructor-did-not-return-within-60s": x} for x in slow[:2]],
             "violations": viol, "exhaustive": False}
